@@ -8,9 +8,11 @@ Driver for stream `blocks` (C06): one op per line, one observation per line.
   pool <id>/<wit>,<id>/<wit>...|-            -> ok                  (mempool: tx hash and witness id)
   sig <wit> <hash> <addr> <b>                -> ok                  (fact: does the witness sign the hash for addr)
   undecodable                                -> ok                  (bytes that do not decode never reach AddBlock)
+  addheaders <h>;<h>;...|-      h = idx:hash:prev:ts:nc:psr:wit
+     -> ok bh=<n> hh=<n> top=<hash of the last recorded header> | err:<class> bh=<n> hh=<n> db=same
   addblock idx= sre= hash= prev= ts= nc= psr= wit= mroot= cmroot= newroot= store= txs=<tx>,..|-
         tx = id:wit:sender:fee:netfee:valid:confl+confl|-
-     -> ok bh=<n> hh=<n> stored=<hash>/<wit>
+     -> ok bh=<n> hh=<n> stored=<hash>/<wit> stale=<number of block txs still in the mempool>
       | err:<class> bh=<n> hh=<n> ledger=same pool=same db=<same|hdr>
 -/
 import NeoModel.Base.Proto
@@ -110,10 +112,42 @@ def doAddBlock (st : DState) (ws : List String) : Option (DState × String) := d
     let stored := match n'.headers[idx]? with
       | some h => s!"{hexPad h.hash 12}/{witStr h.wit}"
       | none => "?"
-    pure ({ st with node := n' }, s!"ok bh={n'.blockHeight} hh={hh} stored={stored}")
+    let stale := (n'.pool.filter (fun q => b.txs.any (fun t => t.id == q.id))).length
+    pure ({ st with node := n' }, s!"ok bh={n'.blockHeight} hh={hh} stored={stored} stale={stale}")
   | some er =>
     let db := if n'.headers.length == st.node.headers.length then "same" else "hdr"
     pure ({ st with node := n' }, s!"err:{errName er} bh={n'.blockHeight} hh={hh} ledger=same pool=same db={db}")
+
+def parseHdr (sr : Bool) (s : String) : Option Header :=
+  match s.splitOn ":" with
+  | [idx, hash, prev, ts, nc, psr, wit] => do
+    let idx ← idx.toNat?
+    let hash ← hexNat hash
+    let prev ← hexNat prev
+    let ts ← ts.toNat?
+    let nc ← hexNat nc
+    let psr ← hexNat psr
+    let wit ← witNat wit
+    pure { index := idx, hash := hash, prevHash := prev, merkleRoot := 0, ts := ts, nextConsensus := nc,
+           sre := sr, prevStateRoot := psr, wit := wit }
+  | _ => none
+
+def doAddHeaders (st : DState) (arg : String) : Option (DState × String) := do
+  let hs ← if arg == "-" then some [] else (arg.splitOn ";").mapM (parseHdr st.node.cfg.sr)
+  let env : Env Nat := {
+    signedBy := fun w h a => st.sigs.contains (w, h, a),
+    merkle := fun _ => 0, txValid := fun _ _ _ => false, balance := fun _ _ => 0,
+    apply := fun _ _ => none, rootOf := fun l => l, keep := fun _ _ => true }
+  let (n', e) := addHeaders env st.node (!st.node.cfg.skip) hs
+  match e with
+  | none =>
+    let top := match n'.headers.getLast? with
+      | some h => hexPad h.hash 12
+      | none => "?"
+    pure ({ st with node := n' }, s!"ok bh={n'.blockHeight} hh={n'.headerHeight} top={top}")
+  | some er =>
+    let db := if n'.headers.length == st.node.headers.length then "same" else "changed"
+    pure ({ st with node := n' }, s!"err:{errName er} bh={n'.blockHeight} hh={n'.headerHeight} db={db}")
 
 def step (st : DState) (ws : List String) : DState × String :=
   match ws with
@@ -154,6 +188,10 @@ def step (st : DState) (ws : List String) : DState × String :=
     match witNat w, hexNat h, hexNat a, bit b with
     | some w, some h, some a, some b => (if b then { st with sigs := (w, h, a) :: st.sigs } else st, "ok")
     | _, _, _, _ => (st, "bad-op")
+  | ["addheaders", arg] =>
+    match doAddHeaders st arg with
+    | some r => r
+    | none => (st, "bad-op")
   | "addblock" :: rest =>
     match doAddBlock st rest with
     | some r => r
